@@ -179,6 +179,16 @@ def handle (opts decls hex : String) : String × String :=
         | some t, some c => t ++ metaStr h c
         | _, _ => "-"
       | _, _ => "-"
-    (m, sp)
+    -- finding class F27: an identifier code, name or text that CONTAINS the characters `$end` (legal for an identifier code:
+    -- any printable characters) ends the command early — `read_until_end_token` looks for the byte sequence, not for a token
+    let hasEnd := fun (bs : List Nat) => (List.range bs.length).any fun k => (bs.drop k).take 4 == [36, 101, 110, 100]
+    let f27 := ds.any fun d =>
+      match d.splitOn "." with
+      | ["v", _, _, id, base, groups, _] =>
+        ((hexBytes? id).map hasEnd).getD false || ((hexBytes? base).map hasEnd).getD false ||
+          (if groups = "-" then false else (groups.splitOn ",").any fun g => ((hexBytes? g).map hasEnd).getD false)
+      | ["s", _, name] => ((hexBytes? name).map hasEnd).getD false
+      | _ => false
+    (m, if f27 then sp ++ "\tF27" else sp)
 
 end Wellen.VcdHeader
